@@ -6,17 +6,21 @@ skeletons regenerated from the source by harness/gen/skel.py, `decide`d
 obligations) is checked by the build + audit steps of harness/check.py."""
 from .. import core
 from .. import schedcase
+from .. import skeltrace
 
 LEAN_TARGETS = ["SqVerif.Props.C03", "SqVerif.Props.C03Bridge"]
 PROPS_FILE = ["SqVerif/Props/C03Skel.lean", "SqVerif/Props/C03Bridge.lean"]
-DRIVE_TARGETS = ["SqVerif.Drive.VNet"]
+DRIVE_TARGETS = ["SqVerif.Drive.VNet", "SqVerif.Drive.Skel"]
 TRUSTED = [
     "harness/simnet.py: fake reactor + Perspective Broker over in-memory pipes, one schedulable event per PB message, "
     "per-connection FIFO, fake clock",
     "harness/schedcase.py: attribution of messages/timers to operations, schedule policies, snapshot canonicalisation, "
     "GF(2) canonical form of the joint stabilizer state, well-formedness predicate",
     "serial reference = the real code run sequentially (fresh network per order); the Lean model is not consulted by the oracle",
-    "AST translator harness/gen/skel.py (skeletons of virtual.py / quantum.py for the decide'd obligations)",
+    "AST translator harness/gen/skel.py (skeletons of virtual.py / quantum.py for the decide'd obligations): validated "
+    "dynamically by trace acceptance (harness/skeltrace.py + Skel.accepts, soundness theorems in Props/C04Skel.lean) on lock "
+    "operations, container mutations and node-method calls of every recorded activation",
+    "harness/skeltrace.py: attribution of events to activations, mapping of concrete objects to role sets",
 ]
 ASSUMPTIONS = [
     "stabilizer backend, three nodes, at most two client connections per node, 2 concurrent operations exhaustively at the "
@@ -36,7 +40,9 @@ def gen(ctx):
 
 
 def run(ctx):
-    return schedcase.check(ctx, "C03")
+    res = schedcase.check(ctx, "C03")
+    skeltrace.tie(ctx, res, "C03")
+    return res
 
 
 def search(ctx, res, broken):
